@@ -22,3 +22,40 @@ Print Assumptions C20_instance_c20_dispatch.
 Theorem C20_instance_c20_overlap : run_client [262144] h_c20_overlap = o_c20_overlap.
 Proof. exact ProofsInstances.inst_c20_overlap. Qed.
 Print Assumptions C20_instance_c20_overlap.
+
+From Client Require Props ProofsConnect ProofsDispatch.
+
+(* Connect succeeds when the server answers CONNACK code 0 *)
+Theorem C20_connect_ok : Client.Props.C20_connect_ok.
+Proof. exact Client.ProofsConnect.connect_ok. Qed.
+Print Assumptions C20_connect_ok.
+
+(* a refusal code is returned as the error *)
+Theorem C20_connect_refused : Client.Props.C20_connect_refused.
+Proof. exact Client.ProofsConnect.connect_refused. Qed.
+Print Assumptions C20_connect_refused.
+
+(* Connect succeeds ONLY on a CONNACK with code 0 (any encoding of the remaining length 2 the framing accepts) *)
+Theorem C20_connect_ok_only : Client.Props.C20_connect_ok_only.
+Proof. exact Client.ProofsConnect.connect_ok_only. Qed.
+Print Assumptions C20_connect_ok_only.
+
+(* a refusal code is reported only if a CONNACK carried it *)
+Theorem C20_connect_refused_only : Client.Props.C20_connect_refused_only.
+Proof. exact Client.ProofsConnect.connect_refused_only. Qed.
+Print Assumptions C20_connect_refused_only.
+
+(* an inbound PUBLISH calls exactly the callbacks of the subscriptions the private store reports for its topic: one call each, same topic and payload *)
+Theorem C20_dispatch : Client.Props.C20_dispatch.
+Proof. exact Client.ProofsDispatch.dispatch. Qed.
+Print Assumptions C20_dispatch.
+
+(* the completion of a SUBSCRIBE registers the callback for exactly the granted filters, under a fresh subscriber *)
+Theorem C20_suback_registers : Client.Props.C20_suback_registers.
+Proof. exact Client.ProofsDispatch.suback_registers. Qed.
+Print Assumptions C20_suback_registers.
+
+(* the completion of an UNSUBSCRIBE removes every filter of the request, held or not, without stopping early *)
+Theorem C20_unsuback_removes : Client.Props.C20_unsuback_removes.
+Proof. exact Client.ProofsDispatch.unsuback_removes. Qed.
+Print Assumptions C20_unsuback_removes.
